@@ -69,6 +69,11 @@ class Uncommitted(Monitor):
                 ctx.count('taints_attributed_by_committing_statement')
             if j is not None and opname in ('job_complete', 'unschedule', 'deactivate_instance') and (j['attempt_id'] is not None or 'state' in cause and j['state'] in ('Running', 'Creating')):
                 mech = 'scheduler-runs-uncommitted-job'
+            if mech == 'scheduler-runs-uncommitted-job' and j is not None and j['attempt_id'] is None and (
+                    cause.startswith('n_pending_parents') or cause == 'cancelled flag set' or (cause.startswith('state ') and j['state'] in ('Ready', 'Pending'))):
+                # not this job being run: a PARENT the pass placed started and finished at once (its completion report overtakes the
+                # driver's own schedule_job call), and its completion counted down / readied / cancelled the uncommitted child
+                mech = 'parent-completion-updates-uncommitted-child'
             if mech == 'scheduler-runs-uncommitted-job' and j is not None and j['job_group_id'] != 0:
                 grp = v.groups.get((k[0], j['job_group_id']))
                 gupd = v.updates.get((k[0], grp['update_id'])) if grp else None
